@@ -14,7 +14,8 @@ static void on_exit_handler() {
 	if (g_in_solver) { viol(std::string("C11:") + g_solver_name + ":called-exit", "{}"); finish_early_and_exit(); }
 }
 
-struct Prob { int n; std::vector<double> A, b; std::string kind; std::vector<double> B; int m = 0; std::vector<double> ydata; double lmin_lb = 0; }; // A column-major n x n
+struct Prob { int n; std::vector<double> A, b; std::string kind; std::vector<double> B; int m = 0; std::vector<double> ydata; double lmin_lb = 0;
+	std::vector<double> D, A0, b0; }; // A column-major n x n; D non-empty: A = D A0 D, b = D b0 with D a diagonal of powers of two (the same problem with every variable in a unit of its own)
 
 // dense SPD solve by Cholesky in long double; returns false if not positive definite
 static bool chol_solve(int n, const std::vector<LD> &A, const std::vector<LD> &b, std::vector<LD> &x) {
@@ -109,6 +110,13 @@ static Prob gen(Rng &r, bool small) {
 		else { e = r.range(1, 2); for (auto &d : D) d = std::pow(10.0, (r.U() * 2 - 1) * e); p.kind += "/scaled-nonuniform1e" + std::to_string(e); }
 		for (int i = 0; i < n; i++) { for (int j = 0; j < n; j++) p.A[i + (size_t)n * j] *= D[i] * D[j]; p.b[i] *= D[i]; dmin = std::min(dmin, D[i]); }
 		p.lmin_lb *= dmin * dmin; p.B.clear(); p.m = 0;
+	} else if (r.coin(0.25)) {
+		// every variable in a unit of its own: A = D A0 D, b = D b0 with D_i = 2^k, |k| up to 10..27 (factors up to 1e3..1e8). The scaling is exact in binary floating point,
+		// the minimiser is x = D^-1 x0 and Cholesky factorisation and all sign tests are invariant under it - the problem is as well posed as (A0, b0), by which it is judged
+		int e = r.range(10, 27); p.A0 = p.A; p.b0 = p.b; p.D.resize(n);
+		for (auto &d : p.D) d = std::ldexp(1.0, r.range(-e, e));
+		for (int i = 0; i < n; i++) { for (int j = 0; j < n; j++) p.A[i + (size_t)n * j] *= p.D[i] * p.D[j]; p.b[i] *= p.D[i]; }
+		p.kind += "/units-per-variable2^" + std::to_string(e); p.B.clear(); p.m = 0;
 	}
 	return p;
 }
@@ -124,7 +132,7 @@ static cholmod_sparse *to_sparse(const Prob &p, Rng *shuffle = nullptr) {
 }
 static std::string prob_json(const Prob &p, const double *x) {
 	std::string j = "{\"n\":" + std::to_string(p.n) + ",\"kind\":" + jstr(p.kind);
-	if (p.n <= 12) { j += ",\"A_colmajor\":" + jarrd(p.A) + ",\"b\":" + jarrd(p.b); if (x) j += ",\"x\":" + jarrd(x, p.n); }
+	if (p.n <= 12) { j += ",\"A_colmajor\":" + jarrd(p.A) + ",\"b\":" + jarrd(p.b); if (x) j += ",\"x\":" + jarrd(x, p.n); if (!p.D.empty()) j += ",\"units_D\":" + jarrd(p.D) + ",\"note\":\"the solver received D A D and D b; A, b and x are shown in the units of the unscaled problem\""; }
 	return j + "}";
 }
 
@@ -146,9 +154,10 @@ static void run_C11(const Args &a, long cs) {
 	count("problems"); count(small ? "problems-enumerated(n<=12)" : "problems-large(KKT-only)"); count("kind:" + p.kind.substr(0, p.kind.find('/')));
 	if (p.kind.find("degenerate") != std::string::npos) count("problems-degenerate"); if (p.kind.find("scaled") != std::string::npos) count("problems-badly-scaled");
 	std::vector<LD> xo; bool have_oracle = false; double lmin = 0, anorm = 0;
+	Prob J = p; bool units = !p.D.empty(); if (units) { J.A = p.A0; J.b = p.b0; count("problems-with-a-unit-per-variable"); } // the problem the answer is judged by
 	if (small) {
-		have_oracle = oracle(p, xo); lmin = lambda_min(p);
-		for (int i = 0; i < n; i++) { double s = 0; for (int j = 0; j < n; j++) s += std::fabs(p.A[i + (size_t)n * j]); anorm = std::max(anorm, s); }
+		have_oracle = oracle(J, xo); lmin = lambda_min(J);
+		for (int i = 0; i < n; i++) { double s = 0; for (int j = 0; j < n; j++) s += std::fabs(J.A[i + (size_t)n * j]); anorm = std::max(anorm, s); }
 		if (!have_oracle) count("oracle-inconclusive"); else { count("oracle-solutions"); int nz = 0; for (LD v : xo) if (v > 0) nz++; count("oracle-support-size:" + std::to_string(nz)); }
 	}
 	if (small && !(lmin > 0 && anorm / lmin < 1e10)) { count("problems-skipped(condition>1e10)"); return; }
@@ -162,8 +171,17 @@ static void run_C11(const Args &a, long cs) {
 	for (auto &sv : solvers) {
 		if (sv.id == 4 && (p.m == 0 || p.kind.find("banded") != std::string::npos || !small)) continue; // LS form only where A = B'B (+eps I folded into extra rows)
 		if ((sv.id == 3 || sv.id == 4) && n > 60) continue;
+		double kappaP = 0;
+		if (units && sv.id == 3) {
+			// Lawson-Hanson solves its sub-problems by rank-revealing QR, which is not invariant under a change of units (a column that is tiny next to the others counts as
+			// zero): the conditioning its answer is tied to is that of the system as given. It is judged on these problems only where that is moderate.
+			if (!small) continue;
+			double lmP = lambda_min(p), anP = 0; for (int i = 0; i < n; i++) { double s2 = 0; for (int j = 0; j < n; j++) s2 += std::fabs(p.A[i + (size_t)n * j]); anP = std::max(anP, s2); }
+			if (!(lmP > 0 && anP / lmP < 1e10)) { count("lawson-hanson-not-judged(unit-per-variable system with norm-wise condition > 1e10)"); continue; }
+			kappaP = anP / lmP; count("lawson-hanson-judged-on-unit-per-variable-system");
+		}
 		cholmod_sparse *As; cholmod_dense *bd; std::vector<double> Af = p.A, bf = p.b; int ncol = n;
-		Prob q = p;
+		Prob q = J;
 		if (sv.id == 4) {
 			// least-squares form: rows of B plus sqrt(eps) I rows reproduce A exactly only up to rounding; rebuild A,b from the LS data for judging
 			double eps = 0; { double s = 0; for (int k = 0; k < p.m; k++) s += p.B[k] * p.B[k]; eps = p.A[0] - s; if (eps < 0) eps = 0; }
@@ -191,14 +209,16 @@ static void run_C11(const Args &a, long cs) {
 		count(std::string("solves:") + sv.name);
 		distinct(hash_mix(h, sv.id));
 		if (!x) { viol(std::string("C11:") + sv.name + ":returned-NULL", prob_json(q, nullptr)); cholmod_l_free_sparse(&As, &CC); cholmod_l_free_dense(&bd, &CC); continue; }
-		const double *xx = (const double *)x->x;
+		std::vector<double> xj((const double *)x->x, (const double *)x->x + n), tneg(n, sv.t_neg), told(n, sv.tol_dual);
+		if (units) for (int i = 0; i < n; i++) { xj[i] *= p.D[i]; tneg[i] *= p.D[i]; told[i] /= p.D[i]; } // back to the units of (A0, b0); the solver's stated tolerances (on x_i and on the gradient component i) converted with it
+		const double *xx = xj.data();
 		std::vector<LD> xo2 = xo; bool have2 = have_oracle; double lmin2 = lmin, anorm2 = anorm;
 		if (sv.id == 4 && small) { have2 = oracle(q, xo2); lmin2 = lambda_min(q); anorm2 = 0; for (int i = 0; i < n; i++) { double s = 0; for (int j = 0; j < n; j++) s += std::fabs(q.A[i + (size_t)n * j]); anorm2 = std::max(anorm2, s); } }
 		// conditioning: exact lambda_min for enumerated problems, the generator's lower bound otherwise
 		double an = 0; for (int i = 0; i < n; i++) { double s2 = 0; for (int j = 0; j < n; j++) s2 += std::fabs(q.A[i + (size_t)n * j]); an = std::max(an, s2); }
-		double lm = (small && lmin2 > 0) ? lmin2 : p.lmin_lb; double kappa = lm > 0 ? std::max(1.0, an / lm) : 1e300;
+		double lm = (small && lmin2 > 0) ? lmin2 : p.lmin_lb; double kappa = lm > 0 ? std::max(1.0, an / lm) : 1e300; kappa = std::max(kappa, kappaP);
 		double magmax = 0; for (int i = 0; i < n; i++) { double mag = std::fabs(q.b[i]); for (int j = 0; j < n; j++) mag += std::fabs(q.A[i + (size_t)n * j] * xx[j]); if (std::isfinite(mag)) magmax = std::max(magmax, mag); }
-		bool finite = true; double neg = 0, worst = 0, worst_tau = 0; int worst_i = -1; const char *worst_kind = "";
+		bool finite = true; double neg = 0, negover = 0, worst = 0, worst_tau = 0; int worst_i = -1; const char *worst_kind = "";
 		for (int i = 0; i < n; i++) if (!std::isfinite(xx[i])) finite = false;
 		if (!finite) { viol(std::string("C11:") + sv.name + ":non-finite-result", prob_json(q, xx)); }
 		else {
@@ -206,22 +226,24 @@ static void run_C11(const Args &a, long cs) {
 				LD g = -(LD)q.b[i], mag = fabsl((LD)q.b[i]);
 				for (int j = 0; j < n; j++) { g += (LD)q.A[i + (size_t)n * j] * xx[j]; mag += fabsl((LD)q.A[i + (size_t)n * j] * xx[j]); }
 				// on the positive set the gradient is the residual of a backward-stable solve; on the zero set it inherits the forward error (kappa*eps) of x
-				double tau = sv.tol_dual + 64.0 * n * DBL_EPSILON * (double)mag;
+				double tau = told[i] + 64.0 * n * DBL_EPSILON * (double)mag;
 				if (xx[i] < neg) neg = xx[i];
+				if (xx[i] < -tneg[i]) negover = std::max(negover, -xx[i] - tneg[i]);
 				double v; const char *kd;
-				if (xx[i] > sv.t_neg) { v = (double)fabsl(g); kd = "gradient-nonzero-on-positive-component"; }
+				if (xx[i] > tneg[i]) { v = (double)fabsl(g); kd = "gradient-nonzero-on-positive-component"; }
 				else { v = g < 0 ? (double)-g : 0; kd = "gradient-negative-on-zero-component"; tau += 64.0 * n * DBL_EPSILON * kappa * magmax; }
 				if (v > tau && v / tau > worst) { worst = v / tau; worst_i = i; worst_kind = kd; worst_tau = tau; }
 			}
-			if (neg < -sv.t_neg) viol(std::string("C11:") + sv.name + ":negative-component", "{\"min_x\":" + jnum(neg) + ",\"allowed\":" + jnum(-sv.t_neg) + ",\"problem\":" + prob_json(q, xx) + "}");
+			if (negover > 0) viol(std::string("C11:") + sv.name + ":negative-component", "{\"min_x\":" + jnum(neg) + ",\"allowed\":" + jnum(-sv.t_neg) + ",\"problem\":" + prob_json(q, xx) + "}");
 			if (worst_i >= 0) viol(std::string("C11:") + sv.name + ":KKT-violated:" + worst_kind, "{\"component\":" + std::to_string(worst_i) + ",\"violation_over_tolerance\":" + jnum(worst) + ",\"tolerance\":" + jnum(worst_tau) + ",\"problem\":" + prob_json(q, xx) + "}");
 			else count("KKT-checks-passed");
 			if (have2 && lmin2 > 0) {
 				LD d2 = 0; for (int i = 0; i < n; i++) d2 += ((LD)xx[i] - xo2[i]) * ((LD)xx[i] - xo2[i]);
 				LD scale = 0; for (int i = 0; i < n; i++) { LD mag = fabsl((LD)q.b[i]); for (int j = 0; j < n; j++) mag += fabsl((LD)q.A[i + (size_t)n * j] * xo2[j]); scale = std::max(scale, mag); }
-				double bound = 4 * std::sqrt((double)n) * (sv.tol_dual + 64.0 * n * DBL_EPSILON * (double)scale + anorm2 * sv.t_neg) / lmin2;
+				double tdmax = 0, tnmax = 0; for (int i = 0; i < n; i++) { tdmax = std::max(tdmax, told[i]); tnmax = std::max(tnmax, tneg[i]); }
+				double bound = 4 * std::sqrt((double)n) * (tdmax + 64.0 * n * DBL_EPSILON * (double)scale + anorm2 * tnmax) / lmin2;
 				count("oracle-distance-checks");
-				if (!(sqrtl(d2) <= bound) && worst_i < 0 && !(neg < -sv.t_neg)) viol(std::string("C11:") + sv.name + ":differs-from-enumerated-optimum", "{\"distance\":" + jnum((double)sqrtl(d2)) + ",\"bound\":" + jnum(bound) + ",\"lambda_min\":" + jnum(lmin2) + ",\"problem\":" + prob_json(q, xx) + "}");
+				if (!(sqrtl(d2) <= bound) && worst_i < 0 && !(negover > 0)) viol(std::string("C11:") + sv.name + ":differs-from-enumerated-optimum", "{\"distance\":" + jnum((double)sqrtl(d2)) + ",\"bound\":" + jnum(bound) + ",\"lambda_min\":" + jnum(lmin2) + ",\"problem\":" + prob_json(q, xx) + "}");
 			}
 		}
 		cholmod_l_free_dense(&x, &CC); cholmod_l_free_dense(&bd, &CC); cholmod_l_free_sparse(&As, &CC);
